@@ -67,9 +67,8 @@ ASSUMPTIONS = [
     "one of these needs more than two accidentals",
     "long parts: the statement puts no bound on the length of a score, the space long stops at 500 time points because "
     "transpose() copies with copy.deepcopy under a recursion limit of 10000 frames and these parts need 12-16 "
-    "frames per time point (measured: RecursionError from 620-830 time points on, a defect reported in "
-    "proposed_fixes/C16-NOTES.md with C16-s-long-timeline-recursion.diff; M.LONG_N_PENDING holds the lengths to add "
-    "to M.LONG_N once it is repaired); times are Python ints in the point list, so no dtype limits the scale/offset",
+    "frames per time point (measured: RecursionError from 620-830 time points on, a defect reported with its repair "
+    "in proposed_fixes/C16-s-long-timeline-recursion.diff; repaired in /repo ec35dac: 1100 slots are enumerated in both tiers, 2600 in thorough); times are Python ints in the point list, so no dtype limits the scale/offset",
     "mc/ir.py builds the arguments through Part.add and attribute links; mc/fingerprint.py reads instance "
     "dictionaries and the point array",
 ]
@@ -163,7 +162,7 @@ def _long_cases(block=None):
     9-10 patterns."""
     assert set(CORE_INTERVALS) <= set(M.admissible_intervals())
     for bi, (base, tied) in enumerate(M.long_bases()):
-        for ni, n in enumerate(M.LONG_N):
+        for ni, n in enumerate(M.LONG_N + (M.LONG_N_THOROUGH if block is None else ())):
             for deco in (0, 1):
                 for k, kind in enumerate(M.ARGKINDS):
                     ci = deco * len(M.ARGKINDS) + k
